@@ -60,10 +60,7 @@ type recNext struct {
 	got   reqSnap
 }
 
-const (
-	nextStatus = 299
-	nextType   = "application/x-next"
-)
+const nextStatus = 299
 
 func nextBody(r *http.Request) string { return "next saw " + r.Method + " " + r.RequestURI }
 
@@ -72,7 +69,7 @@ func (n *recNext) ServeHTTP(w http.ResponseWriter, r *http.Request) {
 	n.same = r == n.in
 	b, _ := io.ReadAll(r.Body)
 	n.got = snapshot(r, string(b))
-	w.Header().Set("Content-Type", nextType)
+	// no Content-Type of its own: a header the middleware left on the writer must show up
 	w.Header().Set("X-Next", "1")
 	w.WriteHeader(nextStatus)
 	_, _ = io.WriteString(w, nextBody(r))
@@ -221,6 +218,24 @@ func build(c Config, e *env) (b *built) {
 		panic("harness: unknown kind " + c.Kind)
 	}
 	return b
+}
+
+// nonCanonicalEscape: the encoded path escapes a byte that could have been sent raw.
+func nonCanonicalEscape(encPath string) bool {
+	for i := 0; i+2 < len(encPath); i++ {
+		if encPath[i] != '%' {
+			continue
+		}
+		h, l := unhex(encPath[i+1]), unhex(encPath[i+2])
+		if h < 0 || l < 0 {
+			continue
+		}
+		c := byte(h<<4 | l)
+		if c >= 'a' && c <= 'z' || c >= 'A' && c <= 'Z' || c >= '0' && c <= '9' || strings.IndexByte("/._~-", c) >= 0 {
+			return true
+		}
+	}
+	return false
 }
 
 // ---- observation ----
@@ -401,7 +416,10 @@ func (b *built) run(method, target, body string) verdict {
 	}
 	p := cleaned(dec)
 	locs, must := b.m.at(p)
-	must = must && method == "GET"
+	// MUST-serve is claimed for GET on a canonically encoded target only: other methods, and targets that
+	// escape a character which may appear raw (%64, %2F: "cleaned path" of the decoded or of the escaped
+	// path?) are left open by the text - there both serving correctly and handing on are accepted
+	must = must && method == "GET" && !nonCanonicalEscape(targetPath(target))
 	before := snapshot(req, body)
 
 	if c.api() {
@@ -425,7 +443,7 @@ func (b *built) run(method, target, body string) verdict {
 		if !reflect.DeepEqual(before, b.next.got) {
 			return verdict{Class: "request-modified", What: fmt.Sprintf("next handler received %+v, middleware received %+v", b.next.got, before), Outcome: "passed"}
 		}
-		if o.Status != nextStatus || o.Body != nextBody(req) || !reflect.DeepEqual(o.Header, http.Header{"Content-Type": {nextType}, "X-Next": {"1"}}) {
+		if o.Status != nextStatus || o.Body != nextBody(req) || !reflect.DeepEqual(o.Header, http.Header{"X-Next": {"1"}}) {
 			return verdict{Class: "response-altered", What: fmt.Sprintf("response of the next handler reached the client as %d %v %q", o.Status, o.Header, short(o.Body)), Outcome: "passed"}
 		}
 		out := "passed-to-next"
